@@ -217,6 +217,24 @@ func (r *rewriter) rewrite() bool {
 		return true
 	})
 	r.file.Doc = nil
+	// rewrites can remove the last use of "sync" (sync.OnceFunc) or "time" (time.Sleep): keep them used
+	for _, im := range r.file.Imports {
+		if im.Name != nil {
+			continue
+		}
+		var typ string
+		switch im.Path.Value {
+		case `"sync"`:
+			typ = "Mutex"
+		case `"time"`:
+			typ = "Duration"
+		default:
+			continue
+		}
+		pkg := strings.Trim(im.Path.Value, `"`)
+		r.file.Decls = append(r.file.Decls, &ast.GenDecl{Tok: token.VAR, Specs: []ast.Spec{&ast.ValueSpec{
+			Names: []*ast.Ident{ident("_")}, Type: &ast.SelectorExpr{X: ident(pkg), Sel: ident(typ)}}}})
+	}
 	// add the runtime import
 	spec := &ast.ImportSpec{Name: ident(rtName), Path: &ast.BasicLit{Kind: token.STRING, Value: fmt.Sprintf("%q", rtPath)}}
 	r.file.Decls = append([]ast.Decl{&ast.GenDecl{Tok: token.IMPORT, Specs: []ast.Spec{spec}}}, r.file.Decls...)
